@@ -637,7 +637,10 @@ func Words() []string {
 
 // ExtraWords are longer adversarial texts appended to Words().
 var ExtraWords = []string{"\\u003c", "\\u003e", "\\u0026", "\\\\u003c", "x\\u0026y", "\\n", "\\\"", "&lt;",
-	" ", "  ", " a", "a ", " a ", "a\n", "\na", "a\r\n", "\ta\t", "a\x00", "\x00a", "null", "true", "[]", "{}", "\"\"", "a,b", "a\":\"b"}
+	" ", "  ", " a", "a ", " a ", "a\n", "\na", "a\r\n", "\ta\t", "a\x00", "\x00a", "null", "true", "[]", "{}", "\"\"", "a,b", "a\":\"b",
+	// valid UTF-8 whose code points are the ones a decoder substitutes or a
+	// serialiser treats specially: they are data and must come back verbatim
+	"\uFFFD", "Bj\uFFFDrk", "\uFFFDa", "\uFEFF", "\uFEFFa", "\uFFFE", "\U0010FFFF", "\u0085", "\u2029", "\u00a0", "\U0001F600"}
 
 // field indices
 const (
